@@ -33,7 +33,7 @@ RULE = ('per stage (blocked, discard, downsample, decimate, rms, derivative, iir
 TRUSTED = ['harness/C12.py (stream/chunking generator; recipe evaluation: one one-shot call of lfilter / np.diff / np.mean / std / matmul '
            'on the whole signal and bit-exact lookup of every emitted value in it; canonicalisation of .s0/.fs/.channel/.metadata to integers)',
            'NumPy basic slicing as modelled in coq/Common/PySlice.v; generators resuming where they yielded']
-ASSUMPTIONS = ['zero-length chunks are sent to every stage; the C12_*_values / _contiguous theorems assume chunks of >= 1 sample, the widened C12_iirfilter_*_any / C12_decimate_*_any cover chunkings with zero-length chunks; all chunks of a stream carry the same fs, channel labels and metadata and are contiguous in s0',
+ASSUMPTIONS = ['zero-length chunks are sent to every stage; the C12_*_values / _contiguous theorems assume chunks of >= 1 sample, the C12_*_any theorems (all eleven stages) cover chunkings with zero-length chunks / zero-span Events chunks; all chunks of a stream carry the same fs, channel labels and metadata and are contiguous in s0',
                'the caller does not overwrite a chunk after sending it (blocked, downsample, rms, auto_th keep references / views of their input until enough samples arrived; not demanded by the property text); the target MAY overwrite what it receives',
                'event_rate s0_mode is accepted but ignored by the code (always centre): only contiguity and rate are judged for left / right',
                'parameters: q >= 1, block size >= 1, discard count >= 0, rms block >= 1 and dividing the s0 of the first chunk '
@@ -1083,7 +1083,10 @@ def cases(tier, rng):
     # s0_mode values (keyword and positional), integer Events fs, NumPy event positions, a clobbering target
     for _ in range(120 if quick else 2000):
         N = rng.choice([rng.randint(1, 30), rng.randint(1, 150)])
-        c = _er_case(rng, _rand_sizes(rng, N, 8), rng.choice([1, 2, 3, 4, 5, rng.randint(1, 30)]),
+        sizes = _rand_sizes(rng, N, 8)
+        if rng.random() < 0.4:
+            sizes = _with_zeros(rng, sizes)            # Events chunks that span zero samples
+        c = _er_case(rng, sizes, rng.choice([1, 2, 3, 4, 5, rng.randint(1, 30)]),
                      rng.choice([1, 2, 3, 5, rng.randint(1, 30)]))
         c['v'] = {'bk': rng.choice(['int', 'float', 'np', 'npf']), 'mode': rng.choice([None, 'center', 'left', 'right']),
                   'positional': rng.random() < 0.5, 'fsk': rng.choice(['float', 'int']),
